@@ -78,6 +78,7 @@ def jverdict (x : List Char × PGA.SI.Defn × PGA.SI.Verdict) : Json :=
     | .ambiguous s => [("verdict", Json.str "ambiguous"), ("spelling", jname s)]
     | .badDefinition e => [("verdict", Json.str "bad_definition"), ("outcome", jerr e)]
     | .unsupported => [("verdict", Json.str "unsupported")]
+    | .notAWord => [("verdict", Json.str "not_a_word")]
   Json.mkObj ([("name", jname x.1)] ++ dfn ++ v)
 
 def handle (op : String) (j : Json) : Option (Except String Json) :=
